@@ -308,7 +308,9 @@ class P:
                     while not self.at(")"):
                         args.append(self.expr()); self.opt(",")
                     self.eat(")")
-                    if name == "saturating_add": e = f"(satAdd {e} {args[0]})"
+                    if e == "self" and not args and name in self.ctx.get("self_methods", []):
+                        e = f"self_{name}"
+                    elif name == "saturating_add": e = f"(satAdd {e} {args[0]})"
                     elif name == "saturating_sub": e = f"(satSub {e} {args[0]})"
                     elif name in ("min", "max"):
                         a, b = e, args[0]
@@ -344,11 +346,14 @@ def lean_type(t):
 
 def translate(entry, repo):
     params, ret, body = extract_fn(os.path.join(repo, entry["file"]), entry["fn"], entry.get("impl"))
-    ctx = {"err": 0, "validators": entry.get("validators", {}), "calls": entry.get("calls", {})}
+    ctx = {"err": 0, "validators": entry.get("validators", {}), "calls": entry.get("calls", {}),
+           "self_methods": entry.get("self_methods", [])}
     plist = []
     for p in [x.strip() for x in params.split(",") if x.strip()]:
         if p in ("&self", "self", "&mut self"):
-            plist.append(("self", entry["self_type"])); continue
+            if entry.get("self_type"): plist.append(("self", entry["self_type"]))
+            for mname in entry.get("self_methods", []): plist.append((f"self_{mname}", "UInt64"))
+            continue
         n, t = p.split(":", 1)
         plist.append((n.strip(), entry.get("param_types", {}).get(n.strip()) or lean_type(t)))
     rty = entry.get("ret") or lean_type(ret.replace("->", "").strip())
@@ -360,27 +365,12 @@ def translate(entry, repo):
 def main():
     spec = json.load(open(sys.argv[1]))
     repo = spec.get("repo", "/repo")
-    out = [f"/- GENERATED by tools/rs2lean.py from {repo} — do not edit; regenerated on every check run. -/",
-           "namespace DEngine.Gen", "",
-           "def satAdd (a b : UInt64) : UInt64 := if a.toNat + b.toNat ≥ 2 ^ 64 then (0xFFFFFFFFFFFFFFFF : UInt64) else a + b",
-           "def satSub (a b : UInt64) : UInt64 := if a ≤ b then 0 else a - b",
-           "def ltb (a b : UInt64) : Bool := decide (a < b)",
-           "def leb (a b : UInt64) : Bool := decide (a ≤ b)",
-           "@[simp] theorem ltb_eq_true {a b : UInt64} : ltb a b = true ↔ a < b := by simp [ltb]",
-           "@[simp] theorem ltb_eq_false {a b : UInt64} : ltb a b = false ↔ b ≤ a := by simp [ltb]",
-           "@[simp] theorem leb_eq_true {a b : UInt64} : leb a b = true ↔ a ≤ b := by simp [leb]",
-           "@[simp] theorem leb_eq_false {a b : UInt64} : leb a b = false ↔ b < a := by simp [leb]",
-           "/-- `if c { return Err(..k-th site..) } rest` -/",
-           "def guardErr (c : Bool) (k : Nat) (rest : Option Nat) : Option Nat := if c then some k else rest",
-           "/-- `e?; rest` for `Result<()>` -/",
-           "def andThen (a rest : Option Nat) : Option Nat := match a with | some k => some k | none => rest",
-           "@[simp] theorem guardErr_eq_none {c k rest} : guardErr c k rest = none ↔ c = false ∧ rest = none := by",
-           "  unfold guardErr; cases c <;> simp",
-           "@[simp] theorem andThen_eq_none {a rest} : andThen a rest = none ↔ a = none ∧ rest = none := by",
-           "  unfold andThen; cases a <;> simp", ""]
-    for s in spec.get("structures", []):
-        out.append(f"structure {s['name']} where")
-        for f, t in s["fields"].items(): out.append(f"  {f} : {t}")
+    out = ["import DEngine.Gen.Prelude",
+           f"/- GENERATED by tools/rs2lean.py from {repo} — do not edit; regenerated on every check run. -/",
+           "namespace DEngine.Gen", ""]
+    for st in spec.get("structures", []):
+        out.append(f"structure {st['name']} where")
+        for f, t in st["fields"].items(): out.append(f"  {f} : {t}")
         out.append("")
     failed = []
     for e in spec["functions"]:
